@@ -60,6 +60,46 @@ def run(gates, n, noise=None, rho0=None):
     return rho
 
 
+def run_measured(gates, n, noise=None, desired="", rho0=None):
+    """Like run(), with projective MEASURE gates post-selected on the outcome string `desired` (one character per MEASURE in gate
+    order). Returns (normalised state or None if the branch has probability 0, branch probability, [outcome distribution at each
+    measurement])."""
+    if rho0 is None:
+        rho = np.zeros((2 ** n, 2 ** n), dtype=complex)
+        rho[0, 0] = 1
+    else:
+        rho = np.asarray(rho0, dtype=complex)
+    noise = noise or {}
+    prob, k, dists = 1.0, 0, []
+    for g in gates:
+        d = SV.desc(g)
+        if d[0] == "MEASURE":
+            q = d[1][0]
+            Z = SV.pauli_matrix([(q, "Z")], n)
+            I = np.eye(2 ** n)
+            P = [(I + Z) / 2, (I - Z) / 2]
+            ps = [float(np.real(np.trace(P[b] @ rho))) for b in (0, 1)]
+            dists.append(ps)
+            b = int(desired[k])
+            k += 1
+            if ps[b] < 1e-14:
+                return None, 0.0, dists
+            rho = P[b] @ rho @ P[b] / ps[b]
+            prob *= ps[b]
+        else:
+            rho = apply_unitary(rho, n, d)
+        touched = list(d[1]) + (list(d[2]) if d[2] else [])
+        for kind, par in noise.get(d[0], []):
+            if kind == "pauli":
+                for q in touched:
+                    rho = pauli_channel(rho, n, q, *par)
+            elif kind == "depol":
+                rho = depolarize(rho, n, touched, par)
+            else:
+                raise KeyError(kind)
+    return rho, prob, dists
+
+
 def selftest():
     n = 2
     rho = run([["H", [0], None, "", False], ["CNOT", [1], [0], "", False]], n)
